@@ -13,6 +13,7 @@ A_NOTE = ('Trusted base: CrossHair 0.0.110 + z3 (its models of int/list/str and 
           'oracle in the harness. Counterexamples are re-run concretely without CrossHair before being reported.')
 A_TECH = 'CrossHair symbolic execution (z3) of the real functions over symbolic inputs within `pre:` bounds; reachability twin per condition; concrete replay of counterexamples'
 CHECKS = {
+    'C18': ('A', 'other', 'PARTIAL: record framing (payload bytes symbolic, so newlines, spaces and header look-alikes are all in range) and the named-pipe path wiring. Matching of responses to requests under reordering and the OS FIFOs themselves are outside this check (see DESIGN.md section 4).', '3 C18'),
     'C12': ('A', 'other', 'The ways a target can end times the kill phase times the signal times the first accessor form a table no test walks; the solver walks all of it on the real reporting code with the OS facts stubbed, and the future-resolved condition is what makes wait/as_completed terminate.', '3 C12'),
     'C15': ('A', 'other', 'Loss of the traceback on a later hop or of args for exceptions with non-trivial constructors shows only for particular class/hop/re-raise combinations; all combinations of the catalogue are exhausted by the solver over real pickle round trips.', '3 C15'),
     'C03': ('A', 'other', 'Operator interactions form a program space; the check enumerates the operator skeletons and leaves elements and parameters symbolic, so boundary sizes (1, len, len+1), empty batches and parameter combinations are covered by the solver rather than by examples.', '3 C03'),
@@ -31,6 +32,15 @@ CHECKS = {
             'hangs are schedule- and size-dependent and invisible to tests.', '3 C05'),
     'C08': ('B', 'model_checking', 'The look-ahead and concurrency bounds are state invariants asserted on every state of the inductive '
             'invariant, with counters in the symbolic state; an overshoot needs a particular speed ratio, i.e. a schedule.', '3 C08'),
+}
+NA = {
+    'C16': 'needs a model of the asyncio event loop (cooperative tasks, call_soon_threadsafe, wait_for) that Engine B does not have yet; the deterministic design-phase defect is described in DESIGN.md section 4',
+    'C20': 'the verdict would rest on a stub of multiprocessing.Queue (feeder thread, pipe capacity) rather than on mpservice code; reproduced by hand only (DESIGN.md section 4)',
+    'C13': 'planned as CrossHair harnesses over an in-process manager transport; not built in this round',
+    'C14': 'planned as CrossHair harnesses over an in-process manager transport; not built in this round',
+    'C04': 'planned (Engine A units of Worker._start_single/_start_batch and ensemble _dequeue); not built in this round',
+    'C09': 'planned (Engine B model of the batching threads + Engine A unit of _get_input_batch); not built in this round',
+    'C11': 'planned (Engine A start harness, Engine B stop protocol); not built in this round',
 }
 checks = []
 for pid, (eng, cat, text, ref) in CHECKS.items():
@@ -60,7 +70,7 @@ m = {
     ],
     'checks': checks,
     'notes': 'See DESIGN.md. Exit codes: 0 holds within bounds, 1 VIOLATION (replayed on the real code), 2 INCONCLUSIVE.',
-    'not_applicable': [{'property_id': p['id'], 'reason': 'check not built yet in this round (see DESIGN.md section 6 for the order of work)'}
+    'not_applicable': [{'property_id': p['id'], 'reason': NA.get(p['id'], 'check not built yet in this round (see DESIGN.md section 4)')}
                        for p in props if p['id'] not in CHECKS],
 }
 json.dump(m, open('/verif/MANIFEST.json', 'w'), indent=1)
